@@ -205,6 +205,10 @@ func genWval(t *simrt.Tape, depthBudget int, clientEnc bool) wval {
 		if depthBudget <= 0 {
 			return wval{kind: "num", u: 7}
 		}
+		if depthBudget == 3 && t.Choose(8) == 0 {
+			// a long flat list of empty lists: nesting depth 2, far below the cap, however many there are
+			return wval{kind: "empties", n: int64([]int{3, 999, 1001, 1500, 2500}[t.Choose(5)])}
+		}
 		v := wval{kind: "list"}
 		if t.Choose(6) == 0 && depthBudget == 3 { // (total nesting stays below the decoder's cap of 1000)
 			v.depth = []int{1, 10, 100, 500, 990}[t.Choose(5)]
@@ -254,6 +258,8 @@ func (v *wval) describe() string {
 			return "set($)"
 		}
 		return fmt.Sprintf("set(uid=%v %v)", v.uidSet, v.ranges)
+	case "empties":
+		return fmt.Sprintf("list of %d empty lists", v.n)
 	case "list":
 		var p []string
 		for i := range v.items {
@@ -358,6 +364,8 @@ func c01encode(enc *vb.Encoder, v *wval) {
 			}
 		}
 		wc.Close()
+	case "empties":
+		enc.List(int(v.n), func(int) { enc.List(0, nil) })
 	case "list":
 		for i := 0; i < v.depth; i++ {
 			enc.Special('(')
@@ -598,6 +606,21 @@ func (d *c01decoder) decode(v *wval) (mismatch string, failed bool) {
 			}
 		}
 		return "", false
+	case "empties":
+		got := 0
+		err := dec.ExpectList(func() error {
+			got++
+			return dec.ExpectList(func() error { return fmt.Errorf("an empty list has an item") })
+		})
+		if err != nil {
+			return fmt.Sprintf("%s: item %d: %v", v.describe(), got, err), dec.Err() != nil
+		}
+		d.compared++
+		d.r.Probe("many-empty-lists")
+		if int64(got) != v.n {
+			return fmt.Sprintf("%s: the decoder finds %d items", v.describe(), got), false
+		}
+		return "", false
 	case "list":
 		// the extra nesting levels
 		var inner func(level int) (string, bool)
@@ -663,6 +686,12 @@ func c01shape(v *wval, sb *strings.Builder) {
 		fmt.Fprintf(sb, "s%d ", len(v.s))
 	case "mailbox":
 		sb.WriteString("m ")
+	case "empties":
+		sb.WriteString("( ")
+		for i := int64(0); i < v.n; i++ {
+			sb.WriteString("( ) ")
+		}
+		sb.WriteString(") ")
 	case "list":
 		for i := 0; i < v.depth; i++ {
 			sb.WriteString("( ")
